@@ -83,7 +83,8 @@ class G:
                          "d": self.pick([2, 4, 8])}
                 pt = "A_FLOAT64"
                 self.features.add("compu:LINEAR-float")
-            elif r < 32 and dct["bt"] == "A_UINT32" and dct.get("enc") in (None, "NONE") and dct["bl"] <= 12:
+            elif r < 22 + self.opts.get("texttable_pct", 10) and dct["bt"] == "A_UINT32" and dct.get("enc") in (None, "NONE") \
+                    and dct["bl"] <= 12:
                 hi = (1 << dct["bl"]) - 1
                 rows, lo = [], self.d(st.integers(0, min(2, hi)))
                 for i in range(self.d(st.integers(1, 4))):
